@@ -1,6 +1,63 @@
 /-
   Sipsp.Proofs.SigChars — what the character-class signatures compute (`getStrCharsSig`, `getCallIDSig`,
-  `getViaBrSig` of msg_sig.go): lemmas for properties C19 / C20.
+  `getViaBrSig` of msg_sig.go): lemmas for properties C19 (parts 1, 3, 4) and C20 (part 2).
+  All statements are for ALL byte strings (no length bound) unless a hypothesis says otherwise.
+
+  (1) `getStrCharsSig s 0 0` (From-tag, branch, Call-ID without an address)
+      * `getStrCharsSig_eq`      : = `(scSig s, 0)` for every byte string, where `scSig` is built from plain list
+        functions: `scClass` (OR of the per-byte flags `resCharSigFlag`), `scFirstRes` (the separator: first reserved
+        byte, `scFirstRes_spec`), `scSepCount`, `scShape` (every reserved byte is the separator, every other byte a
+        hex digit), `scRuns` / `scBlocks` / `scMaxRun` (hex digits per piece between reserved bytes,
+        `scRuns_length_sum`), `scB64` (`=` only as the last or the last two bytes, otherwise letters, digits, `+`, `/`).
+      * `scSig_testBit`          : one equation per bit: bits 3–12 class bits; bit 13 hex encoding; bit 15 digit
+        blocks; bit 14 base64; no other bit (`getStrCharsSig_no_other_bit`).
+      * `scClass_bit_iff`, `getStrCharsSig_class_bit` : the bit of a reserved byte (`scByteBit`: `@`3 `.`4 `:`5 `-`6
+        `*`7 `/`8 `+`9 `=`10 `_`11 `|`12) is set iff that byte occurs in the string.
+      * `scClass_perm`, `getStrCharsSig_perm_low`     : the class bits do not depend on the order of the bytes;
+        `scClass_append`, `getStrCharsSig_append_low` : class bits of `s ++ t` = union. The encoding bits 13–15 are
+        positional and not monotone (tests at the end: `GGGGGGGG=` / `=GGGGGGGG`, `12345678-1` / `1-2345678-`,
+        sixteen hex digits with and without a trailing `g`).
+      With an excluded span (`getStrCharsSig s o n`, used for a Call-ID with an address):
+      * `getStrCharsSig_span`, `getStrCharsSig_span_bit`, `getStrCharsSig_span_low` : bits 3–12 are the class bits of
+        the bytes OUTSIDE the span, bits 0–2 are clear, the rest is one of the four encoding-flag combinations; the
+        second result counts the reserved bytes directly before / after the span (`scSkipW_eq`).
+  (2) `getCallIDSig`
+      * `scContainsIP4_iff_ll`     : ContainsIP4 reports exactly the LEFTMOST dotted quad, as LONG as possible
+        (`scLeftmostLongest`; unique: `scLeftmostLongest_unique`).
+      * `getCallIDSig_ip4_bits`  : if `[o, o+n)` is that quad: bit 0 iff o = 0; bit 1 iff o ≠ 0 and o + n = length;
+        bit 2 iff neither (exactly one of the three); bits 3–12 = class bits of the bytes outside the quad; no
+        "Go would panic" indication. `getCallIDSig_ip4_len`: the short length.
+      * `getCallIDSig_noip_eq`   : no dotted quad and ContainsIP6 silent: result = (`scSig` of the whole Call-ID,
+        min 255 ⌈len/4⌉, false). `getCallIDSig_flags_need_ip`: position bits only with an address (v4 or v6).
+      * `getCallIDSig_ip6`       : the IPv6 fallback, in terms of what the model's ContainsIP6 returns.
+  (3) `getViaBrSig`
+      * `getViaBrSig_no_semicolon`, `getViaBrSig_first_semicolon`, `getViaBrSig_glist` : parameters are read after
+        the first `;`; for a parameter list of the C17 grammar (`GList`, separator `;`, ended by `,` or the end of the
+        value) the result is `scViaResult`: the first parameter named `branch` (case-insensitive, `scIsBranch`)
+        decides: its value without the cookie `z9hG4bK` (`scBranchBody`: stripped only when the value is LONGER than
+        the cookie; the cookie is matched case-insensitively) goes through `getStrCharsSig · 0 0`; empty / missing
+        value or no `branch`: empty signature; later `branch` parameters are ignored (`scViaResult_first`).
+  (4) `getMsgSig_same_classes` : two requests that agree on method, on type + long/compact form of the first
+      occurrences, on Call-ID signature AND short length, on From-tag signature and on the first Via's branch
+      signature have the same signature (`sigApply_congr_class`, `scKeyClass_hdr`).
+
+  NOT proved here:
+  * the encoding bits 13–15 of a Call-ID that contains an address (non-empty excluded span): only that they form one
+    of the four combinations; the function ContainsIP6 is not characterised (its result enters as is);
+  * `getViaBrSig` on Via values whose parameter part is not a `GList` (malformed lists, buffers over 65,535 bytes);
+  * closed formulas for `scB64` / `scRuns` (they are given as structural recursions with sanity lemmas).
+  Observed (all true of the Go source as well; concrete inputs in the tests at the end):
+  * the signature of a string is NOT just the OR of per-byte classes: bits 13–15 are a length / position dependent
+    guess (at least 8 bytes besides the separators; hex: at most one kind of reserved byte, blocks; base64: padding
+    position, length a multiple of 4) — so it is neither order independent nor monotone under concatenation;
+  * the message signature also contains the SHORT LENGTH of the Call-ID (a quarter of its length without the
+    address): Call-IDs of the same classes but different lengths (`abc-def`, `abc-defgh`) give different signatures;
+  * the position bits are also set when only ContainsIP6 finds something (`ab::1`); the positions distinguished
+    are start / end / middle — nothing about `@`; the quad taken is the longest at the leftmost start
+    (`a1.2.3.4567` → `1.2.3.45`, middle);
+  * a reserved byte directly before / after the address is in the class but is not a separator and does not count
+    for the short length; the test `i > 0` in the hex / decimal logic can never matter (the separator is still
+    unset at index 0), and the decimal flag never matters (`scShape_dec_hex`).
 -/
 import Sipsp.Proofs.SigSpec
 import Sipsp.Proofs.IP4
@@ -585,6 +642,40 @@ theorem getStrCharsSig_eq (b : Buf) : getStrCharsSig b 0 0 = (scSig b.toList, 0)
   unfold scSig scHexEnc scShape scBlocks scMaxRun scSepCount
   rw [Array.length_toList, hm]
 
+/-- the separator is the FIRST reserved byte of the string (0 when the string has none) -/
+theorem scFirstRes_spec (l : List UInt8) :
+    (scFirstRes l = 0 ∧ ∀ c ∈ l, scIsRes c = false) ∨
+    (scIsRes (scFirstRes l) = true ∧ ∃ pre post, l = pre ++ scFirstRes l :: post ∧ ∀ c ∈ pre, scIsRes c = false) := by
+  unfold scFirstRes
+  cases h : l.find? scIsRes with
+  | none =>
+    left
+    refine ⟨rfl, fun c hc => ?_⟩
+    have := List.find?_eq_none.mp h c hc
+    simpa using this
+  | some c =>
+    right
+    obtain ⟨hc, pre, post, hl, hpre⟩ := List.find?_eq_some_iff_append.mp h
+    exact ⟨hc, pre, post, hl, fun x hx => by simpa using hpre x hx⟩
+
+/-- the pieces: one more than the number of reserved bytes; their hex-digit counts add up to the number of hex
+    digits among the other bytes -/
+theorem scRuns_length_sum (cur : Nat) (l : List UInt8) :
+    (scRuns cur l).length = l.countP scIsRes + 1 ∧
+    (scRuns cur l).sum = cur + l.countP (fun c => !scIsRes c && scIsHex c) := by
+  induction l generalizing cur with
+  | nil => simp [scRuns]
+  | cons c r ih =>
+    rw [scRuns]
+    cases hR : scIsRes c
+    · simp only [Bool.false_eq_true, ↓reduceIte, List.countP_cons, hR, (ih _).1, (ih _).2, Bool.not_false,
+        Bool.true_and]
+      refine ⟨trivial, ?_⟩
+      split <;> omega
+    · simp only [↓reduceIte, List.length_cons, List.sum_cons, List.countP_cons, hR, (ih _).1, (ih _).2,
+        Bool.not_true, Bool.false_and]
+      refine ⟨trivial, by simp⟩
+
 /-! ### one `iff` per flag bit -/
 
 /-- the bit of a reserved byte: `@`3 `.`4 `:`5 `-`6 `*`7 `/`8 `+`9 `=`10 `_`11 `|`12 -/
@@ -965,6 +1056,79 @@ theorem getStrCharsSig_span_low (b : Buf) (so sl k : Nat) (hk : k < 3) :
   have := scByteBit_range c
   omega
 
+/-- the byte at index `j` exists and is reserved -/
+def scResAt (l : List UInt8) (j : Nat) : Bool :=
+  match l[j]? with
+  | some c => scIsRes c
+  | none => false
+
+/-- with a non-empty excluded span, the skipped neighbours are: the byte directly before the span and the byte
+    directly after it, each when it exists and is reserved (`i`: index of the first byte of the list) -/
+theorem scSkipW_eq (so sl i : Nat) (l : List UInt8) (hsl : sl ≠ 0) :
+    scSkipW so sl i l =
+      (if i + 1 ≤ so ∧ scResAt l (so - 1 - i) = true then 1 else 0) +
+      (if i ≤ so + sl ∧ scResAt l (so + sl - i) = true then 1 else 0) := by
+  induction l generalizing i with
+  | nil => simp [scSkipW, scResAt]
+  | cons c r ih =>
+    rw [scSkipW, ih (i + 1)]
+    have hsl' : (sl == 0) = false := by simpa using hsl
+    unfold scInSpan scNextToSpan
+    simp only [hsl', Bool.false_or]
+    by_cases hA : i + 1 = so
+    · have e1 : so - 1 - i = 0 := by omega
+      have e2 : so + sl - i = (so + sl - (i + 1)) + 1 := by omega
+      have hw : (decide (i ≥ so) && decide (i < so + sl)) = false := by simp; omega
+      have hn : (i != so + sl && i + 1 != so) = false := by simp [hA]
+      rw [e1, e2]
+      simp only [hw, hn, Bool.not_false, Bool.true_and, Bool.and_true, scResAt, List.getElem?_cons_zero,
+        List.getElem?_cons_succ]
+      have c1 : ¬ (i + 1 + 1 ≤ so) := by omega
+      have c2 : i + 1 ≤ so := by omega
+      have c3 : i + 1 ≤ so + sl := by omega
+      have c4 : i ≤ so + sl := by omega
+      simp only [c1, c2, c3, c4, false_and, true_and, ↓reduceIte]
+      omega
+    · by_cases hB : i = so + sl
+      · have e2 : so + sl - i = 0 := by omega
+        have hw : (decide (i ≥ so) && decide (i < so + sl)) = false := by simp; omega
+        have hn : (i != so + sl && i + 1 != so) = false := by simp [hB]
+        rw [e2]
+        simp only [hw, hn, Bool.not_false, Bool.true_and, Bool.and_true, scResAt, List.getElem?_cons_zero]
+        have c1 : ¬ (i + 1 + 1 ≤ so) := by omega
+        have c2 : ¬ (i + 1 ≤ so) := by omega
+        have c3 : ¬ (i + 1 ≤ so + sl) := by omega
+        have c4 : i ≤ so + sl := by omega
+        simp only [c1, c2, c3, c4, false_and, true_and, ↓reduceIte]
+        omega
+      · have hn : (i != so + sl && i + 1 != so) = true := by simp [hA, hB]
+        simp only [hn, Bool.not_true, Bool.and_false, Bool.false_eq_true, ↓reduceIte, Nat.zero_add]
+        have f1 : (i + 1 + 1 ≤ so ∧ scResAt r (so - 1 - (i + 1)) = true) ↔
+            (i + 1 ≤ so ∧ scResAt (c :: r) (so - 1 - i) = true) := by
+          by_cases h : i + 1 ≤ so
+          · have e : so - 1 - i = (so - 1 - (i + 1)) + 1 := by omega
+            rw [e]
+            simp only [scResAt, List.getElem?_cons_succ]
+            constructor
+            · exact fun h' => ⟨h, h'.2⟩
+            · exact fun h' => ⟨by omega, h'.2⟩
+          · constructor
+            · intro h'; omega
+            · intro h'; omega
+        have f2 : (i + 1 ≤ so + sl ∧ scResAt r (so + sl - (i + 1)) = true) ↔
+            (i ≤ so + sl ∧ scResAt (c :: r) (so + sl - i) = true) := by
+          by_cases h : i ≤ so + sl
+          · have e : so + sl - i = (so + sl - (i + 1)) + 1 := by omega
+            rw [e]
+            simp only [scResAt, List.getElem?_cons_succ]
+            constructor
+            · exact fun h' => ⟨h, h'.2⟩
+            · exact fun h' => ⟨by omega, h'.2⟩
+          · constructor
+            · intro h'; omega
+            · intro h'; omega
+        simp only [f1, f2]
+
 /-! ### `getCallIDSig` -/
 
 /-- the IP-position flag: the address starts the Call-ID / ends it / neither -/
@@ -1015,17 +1179,17 @@ def scLeftmostLongest (b : Buf) (o n : Nat) : Prop :=
   (∀ p l t a0 a1 a2 a3, IsIP4 l a0 a1 a2 a3 → b.toList.drop p = l ++ t → o ≤ p) ∧
   (∀ l t a0 a1 a2 a3, IsIP4 l a0 a1 a2 a3 → b.toList.drop o = l ++ t → l.length ≤ n)
 
-theorem IsIP4.length_pos {l : List UInt8} {a0 a1 a2 a3 : Nat} (h : IsIP4 l a0 a1 a2 a3) : 0 < l.length := by
+theorem scIP4_length_pos {l : List UInt8} {a0 a1 a2 a3 : Nat} (h : IsIP4 l a0 a1 a2 a3) : 0 < l.length := by
   obtain ⟨g0, g1, g2, g3, he, _⟩ := h
   rw [he]; simp only [List.length_append, List.length_cons]; omega
 
-theorem containsIP4_ll (b : Buf) {o n : Nat} {ip : Array Nat} (h : containsIP4 b = some (o, n, ip)) :
+theorem scContainsIP4_ll (b : Buf) {o n : Nat} {ip : Array Nat} (h : containsIP4 b = some (o, n, ip)) :
     scLeftmostLongest b o n := by
   have hs := containsIP4_some b h
   refine ⟨⟨?_, _, _, _, _, hs.2⟩, fun p l t a0 a1 a2 a3 => containsIP4_leftmost b h p l t a0 a1 a2 a3,
     fun l t a0 a1 a2 a3 => containsIP4_longest b h l t a0 a1 a2 a3⟩
   have h1 := hs.1
-  have hp := hs.2.length_pos
+  have hp := scIP4_length_pos hs.2
   simp only [List.length_take, List.length_drop, Array.length_toList] at h1 hp
   omega
 
@@ -1044,20 +1208,20 @@ theorem scLeftmostLongest_unique (b : Buf) {o n o' n' : Nat} (h : scLeftmostLong
   omega
 
 /-- ContainsIP4 reports exactly the leftmost dotted quad, as long as possible -/
-theorem containsIP4_iff_ll (b : Buf) (o n : Nat) :
+theorem scContainsIP4_iff_ll (b : Buf) (o n : Nat) :
     (∃ ip, containsIP4 b = some (o, n, ip)) ↔ scLeftmostLongest b o n := by
   constructor
-  · rintro ⟨ip, h⟩; exact containsIP4_ll b h
+  · rintro ⟨ip, h⟩; exact scContainsIP4_ll b h
   · intro h
     rcases hc : containsIP4 b with _ | ⟨o', n', ip⟩
     · exfalso
       obtain ⟨⟨_, a0, a1, a2, a3, hi⟩, _, _⟩ := h
       exact containsIP4_none b hc ⟨o, _, _, a0, a1, a2, a3, hi, (List.take_append_drop n _).symm⟩
-    · obtain ⟨e1, e2⟩ := scLeftmostLongest_unique b h (containsIP4_ll b hc)
+    · obtain ⟨e1, e2⟩ := scLeftmostLongest_unique b h (scContainsIP4_ll b hc)
       subst e1; subst e2
       exact ⟨ip, rfl⟩
 
-theorem containsIP4_none_iff (b : Buf) : containsIP4 b = none ↔ ¬ scHasIP4 b := by
+theorem scContainsIP4_none_iff (b : Buf) : containsIP4 b = none ↔ ¬ scHasIP4 b := by
   constructor
   · exact containsIP4_none b
   · intro h
@@ -1116,7 +1280,7 @@ theorem getCallIDSig_ip4_bits (cid : Buf) (o n : Nat) (H : scLeftmostLongest cid
     (∀ k, 3 ≤ k → k ≤ 12 → ((getCallIDSig cid).1.testBit k = true ↔
       ∃ j c, cid[j]? = some c ∧ ¬ (o ≤ j ∧ j < o + n) ∧ scIsRes c = true ∧ scByteBit c = k)) ∧
     (getCallIDSig cid).2.2 = false := by
-  obtain ⟨ip, h⟩ := (containsIP4_iff_ll cid o n).mpr H
+  obtain ⟨ip, h⟩ := (scContainsIP4_iff_ll cid o n).mpr H
   rw [getCallIDSig_ip4 cid h]
   have hlow := getStrCharsSig_span_low cid o n
   refine ⟨?_, ?_, ?_, ?_, rfl⟩
@@ -1130,11 +1294,46 @@ theorem getCallIDSig_ip4_bits (cid : Buf) (o n : Nat) (H : scLeftmostLongest cid
     rw [Nat.testBit_or, this, Bool.false_or]
     exact getStrCharsSig_span_bit cid o n k h12
 
+theorem scResAt_lt (l : List UInt8) (j : Nat) (h : scResAt l j = true) : j < l.length := by
+  unfold scResAt at h
+  rcases Nat.lt_or_ge j l.length with h1 | h1
+  · exact h1
+  · rw [List.getElem?_eq_none h1] at h; cases h
+
+/-- **the short length of the Call-ID signature, IPv4**: a quarter (rounded up, at most 255) of the length of the
+    Call-ID without the leftmost dotted quad and without the reserved byte directly before it and the reserved
+    byte directly after it (when there are such bytes) -/
+theorem getCallIDSig_ip4_len (cid : Buf) (o n : Nat) (H : scLeftmostLongest cid o n) :
+    (getCallIDSig cid).2.1 =
+      min 255 ((cid.size - n -
+        ((if 1 ≤ o ∧ scResAt cid.toList (o - 1) = true then 1 else 0) +
+         (if scResAt cid.toList (o + n) = true then 1 else 0)) + 3) / 4) := by
+  obtain ⟨ip, h⟩ := (scContainsIP4_iff_ll cid o n).mpr H
+  obtain ⟨⟨hb, a0, a1, a2, a3, hi⟩, _, _⟩ := H
+  have hn : n ≠ 0 := by
+    have := scIP4_length_pos hi
+    simp only [List.length_take, List.length_drop, Array.length_toList] at this
+    omega
+  rw [getCallIDSig_ip4 cid h]
+  show scShortLen cid.size n (getStrCharsSig cid o n).2 = _
+  rw [(getStrCharsSig_span cid o n).2, scSkipW_eq o n 0 cid.toList hn]
+  simp only [Nat.zero_add, Nat.sub_zero, Nat.zero_le, true_and]
+  have h2 : scResAt cid.toList (o + n) = true → o + n < cid.size := fun hh => by
+    have := scResAt_lt _ _ hh; simpa using this
+  rw [scShortLen_eq]
+  by_cases c2 : scResAt cid.toList (o + n) = true
+  · have := h2 c2
+    simp only [c2, ↓reduceIte]
+    split <;> omega
+  · have c2' : scResAt cid.toList (o + n) = false := by simpa using c2
+    simp only [c2', Bool.false_eq_true, ↓reduceIte]
+    split <;> omega
+
 /-- **no address**: without a dotted quad and with ContainsIP6 finding nothing, no position bit is set and the
     signature is that of the whole Call-ID (`scSig`); the short length is a quarter of the length, at most 255 -/
 theorem getCallIDSig_noip_eq (cid : Buf) (h4 : ¬ scHasIP4 cid) (h6 : containsIP6 cid = none) :
     getCallIDSig cid = (scSig cid.toList, min 255 ((cid.size + 3) / 4), false) := by
-  rw [getCallIDSig_noip cid ((containsIP4_none_iff cid).mpr h4) h6, scShortLen_eq _ 0 0 (by omega)]
+  rw [getCallIDSig_noip cid ((scContainsIP4_none_iff cid).mpr h4) h6, scShortLen_eq _ 0 0 (by omega)]
   rfl
 
 /-- the position bits are set only when ContainsIP4 or ContainsIP6 reports an address -/
@@ -1173,18 +1372,18 @@ def scViaResult (b : Buf) (tps : List PTokParam) : Nat × Nat × Bool :=
   | none => (0, 0, false)
   | some tp => if tp.val.len > 0 then scBranchSig (scValOf b tp) else (0, 0, false)
 
-theorem QBody.le_size {b : Buf} {i e : Nat} (h : QBody b i e) : e ≤ b.size := by
+theorem scQBody_le_size {b : Buf} {i e : Nat} (h : QBody b i e) : e ≤ b.size := by
   induction h with
   | close i h => have := get?_lt h; omega
   | plain i e c _ _ _ ih => exact ih
   | esc i e c1 _ _ _ _ ih => exact ih
 
-theorem GParam.pnc_false {b : Buf} {flags o o' : Nat} {e : Err} {tp : PTokParam} (H : GParam b flags o o' e tp) :
+theorem scGParam_pnc {b : Buf} {flags o o' : Nat} {e : Err} {tp : PTokParam} (H : GParam b flags o o' e tp) :
     tp.pnc = false := by
   cases H <;> rfl
 
 /-- the value of a parameter of the grammar lies inside the buffer -/
-theorem GParam.val_get {b : Buf} {flags o o' : Nat} {e : Err} {tp : PTokParam} (hfit : b.size ≤ 65535)
+theorem scGParam_val_get {b : Buf} {flags o o' : Nat} {e : Err} {tp : PTokParam} (hfit : b.size ≤ 65535)
     (H : GParam b flags o o' e tp) (hv : tp.val.len > 0) : tp.val.get? b = some (scValOf b tp) := by
   cases H with
   | noValue t n0 n1 o'' e' st hpad hl hr hn hE => exact absurd hv (Nat.lt_irrefl 0)
@@ -1192,7 +1391,7 @@ theorem GParam.val_get {b : Buf} {flags o o' : Nat} {e : Err} {tp : PTokParam} (
     have := hrv.le_size hv'
     exact field_get? b v0 (v1 - v0) (by omega) hfit
   | quoted t n0 n1 q v0 qe o'' e' st hpad hl hr hn hlq h61 hlv h34 hq hE =>
-    have h1 := hq.le_size
+    have h1 := scQBody_le_size hq
     have h2 := hq.lt
     exact field_get? b v0 (qe - v0) (by omega) hfit
   | emptyVal t n0 n1 q s o'' e' st hpad hl hr hn hlq h61 hlv hs hA => exact absurd hv (Nat.lt_irrefl 0)
@@ -1216,7 +1415,7 @@ theorem viaBrLoop_gparam {b : Buf} {o o' : Nat} {e : Err} {tp : PTokParam} (hfit
       if scIsBranch b tp then (if tp.val.len > 0 then scBranchSig (scValOf b tp) else (0, 0, false))
       else if e = .moreValues then viaBrLoop b o' else (0, 0, false) := by
   rw [viaBrLoop, H.parse hfit]
-  simp only [H.pnc_false, Bool.false_eq_true, ↓reduceIte]
+  simp only [scGParam_pnc H, Bool.false_eq_true, ↓reduceIte]
   have hee : (e == .ok || e == .moreValues || e == .eoh) = true := by
     rcases he with h | h | h <;> subst h <;> rfl
   simp only [hee, ↓reduceIte]
@@ -1235,7 +1434,7 @@ theorem viaBrLoop_gparam {b : Buf} {o o' : Nat} {e : Err} {tp : PTokParam} (hfit
         simp only [this, Bool.false_eq_true, ↓reduceIte, hm]
     · simp only [↓reduceIte]
       by_cases hv : tp.val.len > 0
-      · simp only [hv, ↓reduceIte, H.val_get hfit hv]
+      · simp only [hv, ↓reduceIte, scGParam_val_get hfit H hv]
         exact scBranchSig_eq _
       · simp only [hv, ↓reduceIte]
   · have h6' : (tp.name.len == 6) = false := by simpa using h6
@@ -1375,6 +1574,21 @@ theorem sigApply_congr_class (fs fs' : List SigKey) (s : MsgSig) (hs : s.viaBSig
   simp only at h1
   rw [h1, h2]
 
+/-- the class of a stored Via header: the branch signature of its value; of any other header: type and form only -/
+theorem scKeyClass_hdr (mbuf : Buf) (h : Hdr) :
+    scKeyClass (hdrKey mbuf h) =
+      (h.type, h.name.len == 1,
+        if h.type == HdrVia then
+          match h.val.get? mbuf with
+          | some v => (getViaBrSig v).1
+          | none => 0
+        else 0) := by
+  unfold scKeyClass hdrKey SigKey.viaSig
+  by_cases hv : (h.type == HdrVia) = true
+  · simp only [hv, ↓reduceIte]
+    cases h.val.get? mbuf <;> rfl
+  · simp only [hv, Bool.false_eq_true, ↓reduceIte]
+
 /-- **C19 in its own words**: two requests that agree on the method, on the first occurrences of the fingerprinted
     headers (type and long / compact form, in order), on the Call-ID signature and short length, on the From-tag
     signature and on the branch signature of the first Via have the same signature — whatever the bytes of
@@ -1435,7 +1649,7 @@ example : scSig "12345678-1".toUTF8.data.toList = SigHasDashF ||| SigHexEncF |||
     address are not in the class -/
 example : scLeftmostLongest "x@1.2.3.4".toUTF8.data 2 7 ∧
     getCallIDSig "x@1.2.3.4".toUTF8.data = (SigIPEndF ||| SigHasAtF, 1, false) := by
-  refine ⟨containsIP4_ll _ (ip := #[1, 2, 3, 4]) (by decide +kernel), by decide +kernel⟩
+  refine ⟨scContainsIP4_ll _ (ip := #[1, 2, 3, 4]) (by decide +kernel), by decide +kernel⟩
 
 /-- test: the address in the middle / at the start; `1.2.3.4567`: the quad taken is `1.2.3.45` (longest), middle -/
 example : (getCallIDSig "ab-1.2.3.4-cd".toUTF8.data).1 = SigIPMiddleF ||| SigHasDashF ∧
@@ -1447,6 +1661,10 @@ example : (getCallIDSig "ab-1.2.3.4-cd".toUTF8.data).1 = SigIPMiddleF ||| SigHas
     (`scHasIP4` fails: `containsIP4 = none`) -/
 example : containsIP4 "ab::1".toUTF8.data = none ∧ (getCallIDSig "ab::1".toUTF8.data).1.testBit 0 = true := by
   decide +kernel
+
+/-- test: same classes, different short length -/
+example : getCallIDSig "abc-def".toUTF8.data = (SigHasDashF, 2, false) ∧
+    getCallIDSig "abc-defgh".toUTF8.data = (SigHasDashF, 3, false) := by decide +kernel
 
 /-- non-vacuity of `getCallIDSig_noip_eq` -/
 example : containsIP4 "abc-def".toUTF8.data = none ∧ containsIP6 "abc-def".toUTF8.data = none ∧
@@ -1496,5 +1714,20 @@ example : getViaBrSig scExVia = scViaResult scExVia
     · exact scPRun_of_check _ _ 14 20 (by decide +kernel)
     · exact scPRun_of_check _ _ 21 32 (by decide +kernel)
     · exact Ending.inputEnd 32 32 (by decide) (Lws.nil 32) (EndTail.none 32 (by decide +kernel))
+
+/-- two requests with different Call-ID, From-tag and branch bytes of the same classes (and a different Subject) -/
+def scExMsg1 : Buf := "INVITE sip:a@b SIP/2.0\r\nVia: SIP/2.0/UDP h;branch=z9hG4bK-a.b\r\nSubject: x\r\nf: <sip:a@b>;tag=a-1\r\nTo: <sip:c@d>\r\nCall-ID: x@1.2.3.4\r\nCSeq: 1 INVITE\r\nContent-Length: 0\r\n\r\n".toUTF8.data
+def scExMsg2 : Buf := "INVITE sip:a@b SIP/2.0\r\nVia: SIP/2.0/UDP h2;rport;branch=z9hG4bK-c.d\r\nf: <sip:e@b>;tag=b-2\r\nTo: <sip:c@d>\r\nCall-ID: y@5.6.7.8\r\nCSeq: 22 INVITE\r\nContent-Length: 0\r\n\r\n".toUTF8.data
+def scExM1 : PSIPMsg := (parseSIPMsg scExMsg1 0 (({} : PSIPMsg).init 0 (some (Array.replicate 10 {})) none) 0).2.2
+def scExM2 : PSIPMsg := (parseSIPMsg scExMsg2 0 (({} : PSIPMsg).init 0 (some (Array.replicate 10 {})) none) 0).2.2
+
+/-- non-vacuity of `getMsgSig_same_classes`: the two parsed messages meet its hypotheses, hence have the same
+    signature although Call-ID, From-tag, branch, Via host, Subject and CSeq differ -/
+example : (getMsgSig scExM2 scExMsg2).1 = (getMsgSig scExM1 scExMsg1).1 :=
+  getMsgSig_same_classes scExM1 scExM2 scExMsg1 scExMsg2 (by decide +kernel) (by decide +kernel)
+    "x@1.2.3.4".toUTF8.data "a-1".toUTF8.data "y@5.6.7.8".toUTF8.data "b-2".toUTF8.data
+    (by decide +kernel) (by decide +kernel) (by decide +kernel) (by decide +kernel)
+    (by unfold FlagsCover; decide +kernel) (by unfold FlagsCover; decide +kernel)
+    (by decide +kernel) (by decide +kernel) (by decide +kernel) (by decide +kernel) (by decide +kernel)
 
 end Sipsp
